@@ -212,7 +212,7 @@ def worker(args, scratch):
 def run(tier, rep):
     wproxy.build_helper()
     shards = 8 if tier == "quick" else 16
-    args = [{"shard": i, "tier": tier, "policies": 5 if tier == "quick" else 40, "requests": 500 if tier == "quick" else 2000} for i in range(shards)]
+    args = [{"shard": i, "tier": tier, "policies": 60 if tier == "quick" else 500, "requests": 40 if tier == "quick" else 160} for i in range(shards)]
     rep.coverage["rule"] = ("each case = (destination in {WireServer, HostGAPlugin, IMDS, the listener itself, other}, attribution in {record, none, dead pid, unknown uid, "
                             "non-UTF-8 exe path}, caller process/user, generated rule set+mode per endpoint, method, URL incl. '..' variants, headers, body) sent through the "
                             "real ProxyServer; oracle = decision table from the statement + reference RBAC; observed = client status and every byte at the mock hosts. "
